@@ -400,18 +400,47 @@ func recordStoreTrace(w *bufio.Writer, rng *rand.Rand, o traceGenOpts, counters 
 var reTraceL = regexp.MustCompile(`(?m)^/\\ l = (\d+)`)
 
 // runStoreTraces records nTraces traces and validates them with TLC.
+// maxTraceLines bounds the length of one trace file: TLC cannot reconstruct a counterexample of 65536 or more states
+// (it fails with an internal error instead of reporting the violated invariant), so long runs are validated in chunks.
+const maxTraceLines = 40000
+
 func (c *Ctx) runStoreTraces(nTraces int, o traceGenOpts, purpose string) {
 	if !c.phase("traces " + purpose) {
 		return
 	}
+	rng := rand.New(rand.NewSource(c.Seed*7919 + int64(len(purpose))))
+	counters := map[string]int64{}
+	per := maxTraceLines / (o.Events + 1)
+	if per < 1 {
+		per = 1
+	}
+	totalEvents := 0
+	for done := 0; done < nTraces; done += per {
+		n := per
+		if nTraces-done < n {
+			n = nTraces - done
+		}
+		lines, ok := c.runStoreTraceChunk(n, o, purpose, rng, counters)
+		totalEvents += lines - n
+		if !ok {
+			break
+		}
+	}
+	for k, v := range counters {
+		c.addExtraCount("recorded "+k, v)
+	}
+	fmt.Printf("  [traces %s] %d traces, %d recorded events validated by TLC %.0fs\n", purpose, nTraces, totalEvents, time.Since(c.phaseStart).Seconds())
+}
+
+// runStoreTraceChunk records nTraces executions into one file and validates it; false = a violation was reported
+func (c *Ctx) runStoreTraceChunk(nTraces int, o traceGenOpts, purpose string, rng *rand.Rand, counters map[string]int64) (int, bool) {
 	path := filepath.Join(c.Scratch, fmt.Sprintf("store-trace-%d.ndjson", time.Now().UnixNano()))
 	f, err := os.Create(path)
 	if err != nil {
 		infraFail("%v", err)
 	}
+	defer os.Remove(path)
 	w := bufio.NewWriterSize(f, 1<<20)
-	rng := rand.New(rand.NewSource(c.Seed*7919 + int64(len(purpose))))
-	counters := map[string]int64{}
 	for i := 0; i < nTraces; i++ {
 		if p, ev := recordStoreTrace(w, rng, o, counters); p != "" {
 			w.Flush()
@@ -425,7 +454,7 @@ func (c *Ctx) runStoreTraces(nTraces int, o traceGenOpts, purpose string) {
 			}
 			c.report(&Violation{Pipeline: "storetrace", Config: o, Case: map[string]interface{}{"trace_file": keep, "seed": c.Seed},
 				What: "while recording a trace on the real stores: " + p, Actual: ev, Tags: tags})
-			return
+			return 0, false
 		}
 	}
 	w.Flush()
@@ -482,10 +511,7 @@ func (c *Ctx) runStoreTraces(nTraces int, o traceGenOpts, purpose string) {
 	c.Ev.Coverage.TraceEvents += int64(lines - nTraces)
 	c.Ev.Coverage.Evaluations += int64(lines - nTraces)
 	c.mu.Unlock()
-	for k, v := range counters {
-		c.addExtraCount("recorded "+k, v)
-	}
-	fmt.Printf("  [traces %s] %d traces, %d recorded events validated by TLC %.0fs\n", purpose, nTraces, lines-nTraces, time.Since(c.phaseStart).Seconds())
+	return lines, res.Violated == ""
 }
 
 func copyFile(src, dst string) {
